@@ -187,6 +187,37 @@ def _work_idents(task) -> core.Part:
     return p
 
 
+def _work_linesweep(task) -> core.Part:
+    """Readouts with one data line of L characters (L swept) and with n data lines (n swept), well below 8 KiB in total."""
+    items, = task
+    p = core.Part()
+    sh = shapes()
+    for kind, n in items:
+        if kind == "linelen":
+            body = b"0-0:96.13.0(" + b"4" * n + b")"
+            r = RP.build_readout(b"/ABC5xyz", [b"1-0:1.7.0(0001.320*kW)", body])
+        else:
+            r = RP.build_readout(b"/ABC5xyz", [b"1-0:1.8.0(%08d.000*kWh)" % i for i in range(n)])
+        if len(r) > 8000:
+            continue
+        sent = [sh["r27"], r, sh["r45"], r]
+        S = b"".join(sent)
+        p.add("nontrivial")
+        L = len(r)
+        for ch in (("cuts", []), ("fixed", 1, 0) if len(S) < 3000 else ("fixed", 3, 1), ("fixed", 7, 3), ("fixed", 64, 5), ("fixed", 1000, 0), ("cuts", [27 + L // 2]), ("fixed", max(L - 1, 2), 0)):
+            chunks = mk_chunks(S, ch)
+            errs = stream_errors(sent, chunks)
+            p.add("executions")
+            p.add("events", len(chunks))
+            p.out("all_delivered" if not errs else "loss_or_corruption")
+            if errs:
+                p.viol("clean_delivery", f"clean_delivery:{kind}:{n}:{list(ch)}", f"readout with {kind}={n} ({L} B) chunking={list(ch)}: {errs[0]}", {"raw": [x.hex() for x in sent], "chunking": list(ch)}, size=len(S))
+                if p.full("clean_delivery"):
+                    p.capped = True
+                    return p
+    return p
+
+
 def main(run: core.Run) -> int:
     q = run.quick
     run.rule = ("streams = sequences of 1..3 readouts from 7 shapes (27 B..6 KiB), optional leading proper suffix of a readout, and homogeneous/alternating "
@@ -212,6 +243,9 @@ def main(run: core.Run) -> int:
     run.merge(par.pmap(_work_short, tasks, seed=run.seed))
     nv = len(ident_variants())
     run.merge(par.pmap(_work_idents, [(i, i + 2) for i in range(0, nv, 2)], seed=run.seed))
+    sweep = [("linelen", n) for n in list(range(0, 200)) + [255, 256, 257, 511, 512, 513, 1023, 1024, 1025, 2047, 2048, 2049, 4095, 4096, 4097, 7000, 7900]]
+    sweep += [("nlines", n) for n in list(range(0, 130)) + [200, 255, 256, 257, 280]]
+    run.merge(par.pmap(_work_linesweep, [(sweep[i::32],) for i in range(32)], seed=run.seed))
     tt = []
     for tail_of in (names if not q else ["r27", "r45", "r_lf", "r1k"]):
         L = len(sh[tail_of])
@@ -242,7 +276,7 @@ def main(run: core.Run) -> int:
     tot = run.total
     tot.sample({"stream": "r45 x 910 (40 KiB)", "chunking": "fixed size 45, phase 10", "expect": "910 readouts byte-identical"})
     tot.sample({"stream": (sh["r27"] + sh["r45"]).decode(), "chunkings": "one-shot, octet-wise, every single cut, every pair of cuts"})
-    run.bounds = {"identification_variants": "0/1/2 escape sequences x id length 0/1/15/16 x LF/CRLF: every single cut, fixed 2..32 x every phase", "short_streams": f"{len(tasks)} sequences", "tails": "every proper suffix of " + ("4" if q else "7") + " shapes before two readouts",
+    run.bounds = {"line_sweeps": "one data line of 0..199, 255..257, 511..513, 1023..1025, 2047..2049, 4095..4097, 7000, 7900 characters; 0..129, 200, 255..257, 280 data lines", "identification_variants": "0/1/2 escape sequences x id length 0/1/15/16 x LF/CRLF: every single cut, fixed 2..32 x every phase", "short_streams": f"{len(tasks)} sequences", "tails": "every proper suffix of " + ("4" if q else "7") + " shapes before two readouts",
                   "long_streams": f"{len(lt)} (stream, k) combinations x every phase (k<=96; for larger k the first/last 32 phases and 48 evenly spaced ones); totals " + ("40 KiB" if q else "120..300 KiB")}
     run.assumptions = ["readout builder mc/ref/p1.py; identification lines restricted to IEC-legal characters (no '/', '!')"]
     ex = tot.c.get("executions", 0)
